@@ -21,7 +21,10 @@ Checks(e) ==
       identityAtZero |-> \A k \in 1..Len(P) : FEq(ts[k], Zero) => CloseM(P[k], Ident(n), Zero, tol),
       semigroup  |-> \A q \in 1..Len(e.sums) : LET s == e.sums[q] IN CloseM(P[s[3]], MatMul(P[s[1]], P[s[2]]), tol, tol),
       detailedBalance |-> \A k \in 1..Len(P) : DetailedBalance(P[k], st, tol),
-      converges  |-> \A k \in 1..Len(P) : FLe(FInt(100), ts[k]) => Converged(P[k], st, FParse("1e-5")),
+      \* (a chain whose slowest eigenvalue is small has not converged at t = 100: the law is asked where the textbook
+      \* chain itself is within 1e-6 of its stationary distribution at that length)
+      converges  |-> \A k \in 1..Len(P) : (FLe(FInt(100), ts[k]) /\ (~small \/ Converged(Expm(MatScale(Q, ts[k])), st, FParse("1e-6"))))
+                                              => Converged(P[k], st, FParse("1e-5")),
       expm       |-> \A q \in 1..Len(e.expm) : LET k == e.expm[q] IN CloseM(P[k], Expm(MatScale(Q, ts[k])), tol, tol),
       analyticalIsEigen |-> Len(e.Pe) > 0 => \A k \in 1..Len(P) : CloseM(P[k], ParseM(e.Pe[k]), tol, tol)]
 Failing(e) == IF e.kind = "panic" THEN {"noPanic"} ELSE IF e.kind = "err" THEN {"noError"} ELSE LET ch == Checks(e) IN {k \in DOMAIN ch : ~ch[k]}
